@@ -249,6 +249,23 @@ def gen_path(rng, data, allow_root=True, collectors=True):
         return join(pfx, "**") if rng.random() < 0.7 else "**"
     if kind < 0.76 and isinstance(parent, dict):
         return join(path_text(data, loc) if path_text(data, loc) != "/" else "", "[name()]")
+    if kind < 0.79 and isinstance(parent, list) and rng.random() < 0.3:
+        # an Array slice that selects NOTHING: past the end, reversed within range, before the start
+        n = len(parent)
+        r = rng.random()
+        if r < 0.4:
+            a = n + rng.randrange(0, 3)
+            b = a + rng.randrange(0, 3)
+        elif r < 0.8 and n >= 2:
+            b = rng.randrange(0, n - 1)
+            a = rng.randrange(b + 1, n)
+        elif r < 0.9:
+            a = -n - rng.randrange(1, 4)
+            b = min(a + rng.randrange(0, 2), -n)
+        else:
+            a = -1
+            b = -1 - rng.randrange(1, n + 2)
+        return pfx + "[%d:%d]" % (a, b)
     if kind < 0.79 and isinstance(parent, list) and len(parent) >= 2:
         a = rng.randrange(0, len(parent))
         b = rng.randrange(a, len(parent) + 1)
@@ -401,10 +418,22 @@ def is_name_kw(nc):
     return isinstance(attrs, E["SearchKeywordTerms"]) and attrs.keyword is E["PathSearchKeywords"].NAME
 
 
+def is_empty_virtual(nc, doc_ids):
+    """The node is an empty Python list that is no object of the document: the virtual result of an Array slice
+    that selects nothing.  It designates no node (its parent / parentref are the sliced Array and the start of
+    the slice)."""
+    node = nc.node
+    return isinstance(node, list) and len(node) == 0 and id(node) not in doc_ids
+
+
 def coord_sexp(nc, enc):
     """Wire form of one gathered NodeCoords (ocaml/drv_mutate.ml)."""
     E = init_env()
     NC = E["NodeCoords"]
+    if is_empty_virtual(nc, enc.oids) and isinstance(nc.parent, list) and isinstance(nc.parentref, int):
+        # Processor._is_empty_slice: an empty list of NodeCoords
+        return "(C () (%s %s) %s)" % ("none" if nc.parent is None else "i%d" % enc.oid(nc.parent),
+                                      docenc.pyval_sexp(nc.parentref), "true" if is_name_kw(nc) else "false")
     parent = "none" if nc.parent is None else "i%d" % enc.oid(nc.parent)
     pc = "(%s %s)" % (parent, docenc.pyval_sexp(nc.parentref))
     nk = "true" if is_name_kw(nc) else "false"
